@@ -191,6 +191,11 @@ class C07(C01):
             yield self.finish(self.base([(name, "1400")], max_bs=1024), rng, "coop")
         for kind in (("file", 4), ("pipe",), ("bytesio", 3)):
             yield self.finish(self.base([("tsize", "0")], kind=kind), rng, "coop")
+        # D21: a stream positioned beyond its end delivers nothing and announces tsize=0
+        for kind in (("bytesio", 3, 7), ("bytesio", 0, 1), ("file", 4, 2), ("file", 0, 1)):
+            for opts in ([("tsize", "0")], [("tsize", "0"), ("blksize", "8")], [("blksize", "8")], []):
+                for na in (False, True):
+                    yield with_script(self.base(opts, kind=kind, netascii=na), "coop", rng)
         # (a) blksize alone: value grid x max_block_size x letter case
         for max_bs in (8, 512, 1024, 65464):
             for v in blksize_grid(max_bs):
